@@ -32,6 +32,14 @@ def filesOf (f : FileSet) : Files :=
 
 example : (filesOf ⟨4, 4, 3⟩).map (·.1) = [.str "key.pem", .str "cert.pem", .str "ca.pem"] := by decide
 
+/-- The three file names are plain names (C18's `dir.Write` model refuses names with a separator). -/
+theorem filesOf_valid (f : FileSet) : AllValid (filesOf f) := by
+  intro kb hkb
+  simp only [filesOf, List.mem_map] at hkb
+  obtain ⟨nr, hnr, rfl⟩ := hkb
+  have : ∀ nr ∈ Kit.Generated.C19.fileSet, validName (.str nr.1) = true := by decide
+  exact this nr hnr
+
 /-- The history of `dir.Write` calls of a renewal run (oldest first), as events of C18's model. -/
 def writesOf (s : RN) : List Kit.Dir.Ev := s.pub.reverse.map fun f => Kit.Dir.Ev.write (filesOf f)
 
@@ -52,7 +60,12 @@ theorem published_target_is_latest_fetch {a0 : Nat} {script : List Reply} {t0 : 
   have hw : writesOf s = ((rest.map fileSetOf).reverse.map filesOf ++ [filesOf (fileSetOf r)]).map Kit.Dir.Ev.write := by
     simp [writesOf, hp]
   rw [hw]
-  exact no_crash_single_version B fs0 h0 _ _
+  refine no_crash_single_version B fs0 h0 _ _ ?_
+  intro w hw
+  simp only [List.mem_append, List.mem_map, List.mem_singleton] at hw
+  rcases hw with ⟨f, _, rfl⟩ | rfl
+  · exact filesOf_valid f
+  · exact filesOf_valid _
 
 /-- Non-vacuity: in the example run the good fetches are 2 and 0 (1 failed), so the target holds
 fetch 2's set. -/
